@@ -845,11 +845,12 @@ fn mode_c12token(args: &[String])
                 }
                 let t0 = es0.insertable_reference_string(id);
                 let t1 = es1.insertable_reference_string(id);
-                if bad.is_none() && t0 != format!("ref = {}; ", n)
+                // (a key-value ID may carry its type: `ref = 3000000000u32` - a bare literal above i32::MAX does not compile there)
+                if bad.is_none() && t0 != format!("ref = {}; ", n) && t0 != format!("ref = {}u32; ", n)
                 {
                     bad = Some(format!("structured token (no other kv) for {} is {:?}", n, t0));
                 }
-                if bad.is_none() && t1 != format!("ref = {}, ", n)
+                if bad.is_none() && t1 != format!("ref = {}, ", n) && t1 != format!("ref = {}u32, ", n)
                 {
                     bad = Some(format!("structured token (other kvs) for {} is {:?}", n, t1));
                 }
